@@ -321,6 +321,16 @@ func newWorldOf(kind worldKind, target int64) (w *world, stack string) {
 			return nil
 		}))
 	}
+	if len(kind.powers) >= 4 && target > 70 {
+		// the valset updates queued by the snapshot builds are relayed and attested (successfully) before the world is handed
+		// out: a pending valset update holds back the gas estimation of every logic call / deployment behind it
+		if err := e.RunTo(target - 6); err != nil {
+			panic(blockAbort{err})
+		}
+		for _, b := range [][]string{{"sign"}, {"estimate"}, {"sign"}, {"relayok"}, {"attestok"}} {
+			c.anyBlock(b...)
+		}
+	}
 	if err := e.RunTo(target); err != nil {
 		panic(blockAbort{err})
 	}
